@@ -46,8 +46,8 @@ def scenarios(ctx):
         out.append((f"partition-growth-{at}", gc.two_members(topics={"t": 2}, grow_at=[at, "t", 3], metadata_max_age_ms=500, **base),
                     [{"r": 1}, {"p": 1}, {"f": 1}] if quick else [{"r": 1, "p": 1}, {"r": 2}, {"f": 1}]))
     # the periodic metadata refresh may start at any instant: refresh injected (budget x) while a JoinGroup/SyncGroup is in flight,
-    # after the partition count grew (the regular refresh at 3 s makes every run learn the growth eventually)
-    out.append(("growth-refresh-in-rebalance", gc.two_members(topics={"t": 2}, grow_at=[0.5, "t", 3], metadata_max_age_ms=3000, md_refresh=True,
+    # after the partition count grew (no periodic refresh inside the horizon: coverage is demanded for the partitions some member knows)
+    out.append(("growth-refresh-in-rebalance", gc.two_members(topics={"t": 2}, grow_at=[0.5, "t", 3], metadata_max_age_ms=60000, md_refresh=True,
                                                               **dict(base, kill=False, coord_move=False)), [{"x": 1, "r": 1}]))
     out.append(("pattern-new-topic", gc.two_members(topics={"ta": 1}, new_topic_at=[0.95, "tb", 2], metadata_max_age_ms=500,
                                                     members=[dict(pattern="^t.*", assignors=["range"]),
